@@ -703,9 +703,9 @@ class EdgeQLSourceGenerator(codegen.SourceGenerator):
     def visit_Constant(self, node: qlast.Constant) -> None:
         if node.kind == qlast.ConstantKind.STRING:
             if not _NON_PRINTABLE_RE.search(node.value):
-                for d in ("'", '"', '$$'):
+                for d in ("'", '"'):
                     if d not in node.value:
-                        if '\\' in node.value and d != '$$':
+                        if '\\' in node.value:
                             self.write('r', d, node.value, d)
                         else:
                             self.write(d, node.value, d)
